@@ -15,7 +15,9 @@ use did_url_parser::DID as BaseDIDUrl;
 use identity_core::common::KeyComparable;
 use identity_core::common::Url;
 
+use crate::did::check_parser_input;
 use crate::did::is_char_method_id;
+use crate::did::parse_base_did_url;
 use crate::did::CoreDID;
 use crate::did::DID;
 use crate::Error;
@@ -93,7 +95,7 @@ impl RelativeDIDUrl {
   /// assert_eq!(url.to_string(), "/path/sub-path/resource");
   /// ```
   pub fn set_path(&mut self, value: Option<&str>) -> Result<(), Error> {
-    self.path = value
+    let path: Option<String> = value
       .filter(|s| !s.is_empty())
       .map(|s| {
         if s.starts_with('/') && is_valid_url_segment(s, is_char_path) {
@@ -103,6 +105,11 @@ impl RelativeDIDUrl {
         }
       })
       .transpose()?;
+    let previous: Option<String> = std::mem::replace(&mut self.path, path);
+    if let Err(err) = self.check_parsable() {
+      self.path = previous;
+      return Err(err);
+    }
     Ok(())
   }
 
@@ -133,7 +140,7 @@ impl RelativeDIDUrl {
   /// assert_eq!(url.to_string(), "?query1=a&query2=b");
   /// ```
   pub fn set_query(&mut self, value: Option<&str>) -> Result<(), Error> {
-    self.query = value
+    let query: Option<String> = value
       .filter(|s| !s.is_empty())
       .map(|mut s| {
         // Ignore leading '?' during validation.
@@ -144,6 +151,11 @@ impl RelativeDIDUrl {
         Ok(format!("?{s}"))
       })
       .transpose()?;
+    let previous: Option<String> = std::mem::replace(&mut self.query, query);
+    if let Err(err) = self.check_parsable() {
+      self.query = previous;
+      return Err(err);
+    }
     Ok(())
   }
 
@@ -183,7 +195,7 @@ impl RelativeDIDUrl {
   /// assert_eq!(url.to_string(), "#fragment2");
   /// ```
   pub fn set_fragment(&mut self, value: Option<&str>) -> Result<(), Error> {
-    self.fragment = value
+    let fragment: Option<String> = value
       .filter(|s| !s.is_empty())
       .map(|mut s| {
         // Ignore leading '#' during validation.
@@ -194,7 +206,17 @@ impl RelativeDIDUrl {
         Ok(format!("#{s}"))
       })
       .transpose()?;
+    let previous: Option<String> = std::mem::replace(&mut self.fragment, fragment);
+    if let Err(err) = self.check_parsable() {
+      self.fragment = previous;
+      return Err(err);
+    }
     Ok(())
+  }
+
+  /// Ensures that the components can be parsed again once they are put together, see [`check_parser_input`].
+  fn check_parsable(&self) -> Result<(), Error> {
+    check_parser_input(&self.to_string())
   }
 }
 
@@ -279,7 +301,7 @@ impl DIDUrl {
 
   /// Parse a [`DIDUrl`] from a string.
   pub fn parse(input: impl AsRef<str>) -> Result<Self, Error> {
-    let did_url: BaseDIDUrl = BaseDIDUrl::parse(input)?;
+    let did_url: BaseDIDUrl = parse_base_did_url(input.as_ref())?;
     Self::from_base_did_url(did_url)
   }
 
@@ -387,7 +409,8 @@ impl DIDUrl {
     }
 
     // Parse DID Url.
-    let base_did_url: BaseDIDUrl = BaseDIDUrl::parse(self.to_string())?.join(segment)?;
+    check_parser_input(segment)?;
+    let base_did_url: BaseDIDUrl = parse_base_did_url(&self.to_string())?.join(segment)?;
     Self::from_base_did_url(base_did_url)
   }
 
